@@ -277,6 +277,8 @@ def classify_check(chk):
 def attributable(prop, ob, chk, tags):
     """Does this failed property check count against `prop` for obligation `ob`?"""
     cat = chk.get("category", "")
+    if prop == "ALL":  # maintenance run over every obligation (timing, regression): everything counts
+        return True
     if tags:
         return prop in tags
     if prop == "C02":
@@ -369,14 +371,14 @@ def run_playback(scratch, ob, tests):
 def select(prop, tier, only):
     obs = []
     for ob in registry.OBLIGATIONS:
-        if prop not in ob["props"]:
+        if prop != "ALL" and prop not in ob["props"]:
             continue
         if only and ob["id"] not in only:
             continue
         if tier == "quick" and ob.get("tier", "quick") != "quick":
             continue
         qp = ob.get("quick_props")
-        if tier == "quick" and qp is not None and prop not in qp and not only:
+        if tier == "quick" and prop != "ALL" and qp is not None and prop not in qp and not only:
             continue
         obs.append(ob)
     return obs
